@@ -300,6 +300,77 @@ func runC06Placeholders(p *Prog, r *Report) {
 			}
 			return true
 		})
+		// (d') the same for a data value that is filled field by field: a store of a snippet
+		// embedding nested data needs a store of that data's NextPlaceholder beside it
+		if ph != nil {
+			storeOf := func(n ast.Node, field string) (types.Object, ast.Expr, bool) {
+				as, ok := n.(*ast.AssignStmt)
+				if !ok || len(as.Lhs) != 1 || len(as.Rhs) != 1 {
+					return nil, nil, false
+				}
+				sel, ok := ast.Unparen(as.Lhs[0]).(*ast.SelectorExpr)
+				if !ok || sel.Sel.Name != field {
+					return nil, nil, false
+				}
+				id, ok := ast.Unparen(sel.X).(*ast.Ident)
+				if !ok || !isCompletionData(info.TypeOf(id)) {
+					return nil, nil, false
+				}
+				return info.ObjectOf(id), as.Rhs[0], true
+			}
+			ast.Inspect(fn.Body, func(n ast.Node) bool {
+				if lit, ok := n.(*ast.FuncLit); ok && lit != fn.Lit {
+					return false
+				}
+				vo, snip, ok := storeOf(n, "Snippet")
+				if !ok {
+					return true
+				}
+				var srcs []types.Object
+				derives(fn, snip, func(e ast.Expr) bool {
+					if sel, ok := e.(*ast.SelectorExpr); ok && sel.Sel.Name == "Snippet" {
+						if id, ok := ast.Unparen(sel.X).(*ast.Ident); ok && isCompletionData(info.TypeOf(id)) && info.ObjectOf(id) != vo {
+							srcs = append(srcs, info.ObjectOf(id))
+						}
+					}
+					return false
+				}, map[types.Object]bool{})
+				if len(srcs) == 0 {
+					return true
+				}
+				nLits++
+				construct := exprStr(n.(*ast.AssignStmt).Lhs[0]) + " = " + short(exprStr(snip), 40)
+				found := false
+				ast.Inspect(fn.Body, func(m ast.Node) bool {
+					mo, np, ok := storeOf(m, "NextPlaceholder")
+					if !ok || mo != vo || !(fn.Dominates(n, m) || fn.Dominates(m, n)) {
+						return true
+					}
+					if derives(fn, np, func(e ast.Expr) bool {
+						if sel, ok := e.(*ast.SelectorExpr); ok && sel.Sel.Name == "NextPlaceholder" {
+							if id, ok := ast.Unparen(sel.X).(*ast.Ident); ok {
+								for _, so := range srcs {
+									if info.ObjectOf(id) == so {
+										return true
+									}
+								}
+							}
+						}
+						return false
+					}, map[types.Object]bool{}) {
+						found = true
+					}
+					return true
+				})
+				if found {
+					r.Add("C06.placeholder-next", fn.Name, construct, p.Pos(n), OK, "NextPlaceholder is stored from the nested data's own NextPlaceholder beside the snippet", true)
+				} else {
+					r.Add("C06.placeholder-next", fn.Name, construct, p.Pos(n), Violated,
+						"the stored snippet embeds nested completion data, but no store beside it sets NextPlaceholder from that data's NextPlaceholder (tab-stop numbers used inside the nested snippet will be reused by whatever follows)", true)
+				}
+				return true
+			})
+		}
 	}
 	r.ExpectMin("C06.completion-data-literals", nLits, 14)
 	r.ExpectMin("C06.nested-data-calls", nCalls, 8)
